@@ -19,8 +19,7 @@ import (
 // Document layer: the tree lives in a real document (Root /Names /Dests or /EmbeddedFiles, installed with
 // XRefTable.LocateNameTree(name, true) as pdfcpu's own commands do), is written with api.WriteContextFile
 // (-> BindNameTrees), and read back twice: raw (objects only, own walk) and through pdfcpu's validation.
-//
-// TODO(pdfstrict): replace rawCheck's use of api.ReadContext by the non-repairing reader once it exists.
+// The raw re-read (raw.go) uses harness/internal/pdfstrict and shares no code with pdfcpu.
 
 func corpusFile() string { return filepath.Join(vk.RepoDir(), "pkg", "testdata", "test.pdf") }
 
@@ -31,10 +30,7 @@ var docCtrl = []string{"a\x01", "a\x01\x01", "b\x01", "tab\tkey", "(", ")", "a(b
 var docBackslash = []string{"x\\y", "x\\\\y", "dir\\file", "x\\n", "trailing\\"}
 
 func keyClass(k string) string {
-	switch {
-	case k == "":
-		return "empty"
-	case strings.Contains(k, "\\"):
+	if strings.Contains(k, "\\") {
 		return "backslash"
 	}
 	for i := 0; i < len(k); i++ {
@@ -50,7 +46,7 @@ func keyClass(k string) string {
 	return "plain"
 }
 
-var classRank = map[string]int{"plain": 0, "special": 1, "utf8": 2, "backslash": 3, "empty": 4}
+var classRank = map[string]int{"plain": 0, "special": 1, "utf8": 2, "backslash": 3}
 
 func worstClass(ref map[string]int) string {
 	w := "plain"
@@ -72,10 +68,6 @@ func docUniverse(rng *rand.Rand, doc string) []string {
 			u = append(u, docCtrl...)
 		case 4:
 			u = append(u, docBackslash...)
-		case 5:
-			if rng.IntN(2) == 0 {
-				u = append(u, "")
-			}
 		}
 	}
 	rng.Shuffle(len(u), func(i, j int) { u[i], u[j] = u[j], u[i] })
@@ -145,208 +137,13 @@ func codecFor(ctx *model.Context, doc string) (valueCodec, *model.XRefTable, err
 	return destCodec{*ref}, nil, nil
 }
 
-func rawString(o types.Object) (string, error) {
-	switch s := o.(type) {
-	case types.HexLiteral:
-		b, err := s.Bytes()
-		return string(b), err
-	case types.StringLiteral:
-		b, err := types.Unescape(string(s))
-		return string(b), err
-	}
-	return "", fmt.Errorf("not a string: %v (%T)", o, o)
-}
-
-type rawEntry struct {
-	k  string
-	id int
-}
-
-// rawWalk reads the written name tree straight from the object graph (no pdfcpu name tree code).
-func rawWalk(ctx *model.Context, d types.Dict, vc valueCodec, depth int, out *[]rawEntry) *failure {
-	if depth > 64 {
-		return failf("raw-too-deep", "written tree deeper than 64")
-	}
-	kidsObj, hasKids := d.Find("Kids")
-	_, hasNames := d.Find("Names")
-	if hasKids {
-		if hasNames {
-			return failf("raw-intermediate-has-names", "written node has both Kids and Names: %v", d)
-		}
-		kids, err := ctx.DereferenceArray(kidsObj)
-		if err != nil {
-			return failf("raw-kids", "Kids: %v", err)
-		}
-		for _, ko := range kids {
-			if _, ok := ko.(types.IndirectRef); !ok {
-				return failf("raw-kid-not-indirect", "kid is not an indirect reference: %v", ko)
-			}
-			kd, err := ctx.DereferenceDict(ko)
-			if err != nil || kd == nil {
-				return failf("raw-kids", "kid %v: %v", ko, err)
-			}
-			from := len(*out)
-			if f := rawWalk(ctx, kd, vc, depth+1, out); f != nil {
-				return f
-			}
-			sub := (*out)[from:]
-			if len(sub) == 0 {
-				return failf("raw-empty-subtree", "written kid %v holds no keys", ko)
-			}
-			lim, err := ctx.DereferenceArray(kd["Limits"])
-			if err != nil || len(lim) != 2 {
-				return failf("raw-limits-missing", "kid %v: Limits %v %v", ko, kd["Limits"], err)
-			}
-			lo, e1 := rawString(lim[0])
-			hi, e2 := rawString(lim[1])
-			if e1 != nil || e2 != nil {
-				return failf("raw-limits-missing", "kid %v: Limits %v", ko, kd["Limits"])
-			}
-			mn, mx := sub[0].k, sub[0].k
-			for _, e := range sub {
-				if e.k < mn {
-					mn = e.k
-				}
-				if e.k > mx {
-					mx = e.k
-				}
-			}
-			if lo != mn || hi != mx {
-				return failf("raw-limits-mismatch", "written kid %v has Limits [%q %q] but its keys span [%q %q]", ko, lo, hi, mn, mx)
-			}
-		}
-		return nil
-	}
-	names, err := ctx.DereferenceArray(d["Names"])
-	if err != nil {
-		return failf("raw-names", "Names: %v", err)
-	}
-	if len(names)%2 != 0 {
-		return failf("raw-names", "Names has odd length %d", len(names))
-	}
-	for i := 0; i < len(names); i += 2 {
-		k, err := rawString(names[i])
-		if err != nil {
-			return failf("raw-names", "key %v: %v", names[i], err)
-		}
-		id, err := vc.id(names[i+1])
-		if err != nil {
-			return failf("raw-value", "key %q: %v", k, err)
-		}
-		*out = append(*out, rawEntry{k, id})
-	}
-	return nil
-}
-
-// rawKeys lists the keys of the written tree in file order, ignoring limits and values.
-func rawKeys(ctx *model.Context, d types.Dict, depth int) ([]string, bool) {
-	if depth > 64 {
-		return nil, false
-	}
-	var out []string
-	if kidsObj, ok := d.Find("Kids"); ok {
-		kids, err := ctx.DereferenceArray(kidsObj)
-		if err != nil {
-			return nil, false
-		}
-		for _, ko := range kids {
-			kd, err := ctx.DereferenceDict(ko)
-			if err != nil || kd == nil {
-				return nil, false
-			}
-			kk, ok := rawKeys(ctx, kd, depth+1)
-			if !ok {
-				return nil, false
-			}
-			out = append(out, kk...)
-		}
-		return out, true
-	}
-	names, err := ctx.DereferenceArray(d["Names"])
-	if err != nil {
-		return nil, false
-	}
-	for i := 0; i+1 < len(names); i += 2 {
-		k, err := rawString(names[i])
-		if err != nil {
-			return nil, false
-		}
-		out = append(out, k)
-	}
-	return out, true
-}
-
-func rawCheck(path, doc string, ref map[string]int) *failure {
-	f, err := os.Open(path)
-	if err != nil {
-		return failf("raw-open", "%v", err)
-	}
-	defer f.Close()
-	conf := model.NewDefaultConfiguration()
-	conf.Offline = true
-	ctx, err := api.ReadContext(f, conf)
-	if err != nil {
-		return failf("raw-read-error", "written file cannot be parsed: %v", err)
-	}
-	cat, err := ctx.Catalog()
-	if err != nil {
-		return failf("raw-read-error", "catalog: %v", err)
-	}
-	nd, err := ctx.DereferenceDict(cat["Names"])
-	if err != nil || nd == nil {
-		return failf("raw-tree-missing", "catalog /Names missing in the written file (%v)", err)
-	}
-	td, err := ctx.DereferenceDict(nd[doc])
-	if err != nil || td == nil {
-		return failf("raw-tree-missing", "/Names /%s missing in the written file (%v)", doc, err)
-	}
-	var vc valueCodec = destCodec{} // id() does not need the page reference
-	if doc == "EmbeddedFiles" {
-		vc = efCodec{ctx}
-	}
-	// pass A: which keys does the written tree hold at all? (one class for every way of writing a stale tree)
-	want := make([]string, 0, len(ref))
-	for k := range ref {
-		want = append(want, k)
-	}
-	sort.Strings(want)
-	if got, ok := rawKeys(ctx, td, 0); ok {
-		sorted := append([]string(nil), got...)
-		sort.Strings(sorted)
-		if !eqStrings(sorted, want) {
-			return failf("raw-keys-differ-from-map", "written file holds %q, reference map %q", got, want)
-		}
-	}
-	// pass B: structure, limits, order, values
-	var ee []rawEntry
-	if fl := rawWalk(ctx, td, vc, 0, &ee); fl != nil {
-		return fl
-	}
-	var keys []string
-	for i, e := range ee {
-		keys = append(keys, e.k)
-		if i > 0 && ee[i-1].k >= e.k {
-			return failf("raw-keys-not-sorted", "written keys not strictly ascending: %q then %q", ee[i-1].k, e.k)
-		}
-	}
-	if !eqStrings(keys, want) {
-		return failf("raw-keys-differ-from-map", "written file holds %q, reference map %q", keys, want)
-	}
-	for _, e := range ee {
-		if ref[e.k] != e.id {
-			return failf("raw-value-mismatch", "written key %q carries value id %d, reference %d", e.k, e.id, ref[e.k])
-		}
-	}
-	return nil
-}
-
 // docOpKey maps an operation-level failure inside a document to its key: pure tree-logic classes share the
 // layer-1 key (same defect, same key); classes that involve the values / the xref table get a doc key.
 func docOpKey(r *result, doc string) {
 	if strings.Contains(r.Key, "value-mismatch") || strings.Contains(r.Key, "present-key-not-found") || strings.Contains(r.Key, "-error") {
-		r.Key = "doc/" + r.Key + "/tree=" + doc
-		if r.start == "reread" {
-			r.Key += "/start=reread" // nodes carry dictionaries read from the file: Remove(xRefTable, ..) deletes objects
+		r.Key = "doc/" + strings.Replace(r.Key, "/start=foreign", "", 1) + "/tree=" + doc
+		if r.start == "reread" || r.start == "generated" {
+			r.Key += "/start=file" // nodes carry dictionaries read from a file: Remove(xRefTable, ..) deletes objects
 		}
 	}
 }
@@ -394,12 +191,13 @@ func plainTwin(c *seqCase) *seqCase {
 	return &p
 }
 
-// runDoc is layer 2. Failures of the written document are keyed doc/written/<class>/tree=<T>; when the
+// runDoc is layer 2. Failures of the written document are keyed doc/written/<class>/tree=<T> (of reading a
+// generated document: doc/generated/<class>/tree=<T>); when the
 // history needs non-plain keys to fail (its order-preserving plain twin passes) the key class is appended and all
 // differences seen through pdfcpu's re-read are folded into one class.
 func runDoc(c *seqCase, o obs, scratch string, idx int) *result {
 	r := runDocOnce(c, o, scratch, idx)
-	if r == nil || !strings.HasPrefix(r.Key, "doc/written/") {
+	if r == nil || !strings.HasPrefix(r.Key, "doc/written/") && !strings.HasPrefix(r.Key, "doc/generated/") {
 		return r
 	}
 	kc := r.keyClass
@@ -409,7 +207,9 @@ func runDoc(c *seqCase, o obs, scratch string, idx int) *result {
 		}
 	}
 	if kc != "plain" {
-		if strings.HasPrefix(r.Key, "doc/written/reread") {
+		if strings.HasPrefix(r.Key, "doc/written/reread") || strings.HasPrefix(r.Key, "doc/generated/") {
+			// what pdfcpu reads differs from what the file holds, and only for keys of this class: one key per
+			// class, whoever wrote the file
 			r.Key = "doc/written/reread-differs/tree=" + c.Doc
 		}
 		r.Key += "/keyclass=" + kc
@@ -429,28 +229,58 @@ func runDocOnce(c *seqCase, o obs, scratch string, idx int) *result {
 		cf.Offline = true
 		return api.ReadAndValidate(f, cf)
 	}
-	ctx, err := open(corpusFile())
-	if err != nil {
-		return &result{Key: "harness/corpus-read", What: err.Error(), OpIndex: -1}
-	}
-	if err := ctx.LocateNameTree(c.Doc, true); err != nil {
-		return &result{Key: "doc/locate-error" + tag, What: err.Error(), OpIndex: -1}
-	}
-	vc, xrt, err := codecFor(ctx, c.Doc)
-	if err != nil {
-		return &result{Key: "harness/codec", What: err.Error(), OpIndex: -1}
-	}
-	s := &treeState{root: ctx.Names[c.Doc], ref: map[string]int{}, vc: vc, xrt: xrt, start: c.Start, o: o}
-	if r := s.runOps(buildOps(c.Build), c.Universe, true, 0, ""); r != nil {
-		docOpKey(r, c.Doc)
-		return r
+	path := filepath.Join(scratch, fmt.Sprintf("c39-%d.pdf", idx))
+	defer os.Remove(path)
+	var s *treeState
+	var ctx *model.Context
+	if c.Start == "generated" {
+		data, ref := generatedDoc(c)
+		if err := os.WriteFile(path, data, 0o644); err != nil {
+			return &result{Key: "harness/scratch", What: err.Error(), OpIndex: -1}
+		}
+		var err error
+		if ctx, err = open(path); err != nil {
+			return &result{Key: "doc/generated/read-error" + tag, What: fmt.Sprintf("pdfcpu cannot read the generated document (leaf max %d, %d keys): %v", c.LeafMax, len(ref), err), OpIndex: -1, keyClass: worstClass(ref)}
+		}
+		root := ctx.Names[c.Doc]
+		if root == nil {
+			return &result{Key: "doc/generated/tree-missing" + tag, What: fmt.Sprintf("ctx.Names[%q] is nil after reading a generated tree of %d keys", c.Doc, len(ref)), OpIndex: -1, keyClass: worstClass(ref)}
+		}
+		vc, xrt, err := codecFor(ctx, c.Doc)
+		if err != nil {
+			return &result{Key: "harness/codec", What: err.Error(), OpIndex: -1}
+		}
+		s = &treeState{root: root, ref: ref, vc: vc, xrt: xrt, start: c.Start, o: o}
+		if f := checkTree(root, ref, vc, absentProbes(ref, c.Universe), &s.sh); f != nil {
+			return &result{Key: "doc/generated/read/" + f.Class + tag, What: "tree read from the generated document: " + f.What, OpIndex: -1, keyClass: worstClass(ref)}
+		}
+		o["doc_generated_trees_read"]++
+		o["doc_generated_max_depth"] = max(o["doc_generated_max_depth"], int64(s.sh.depth))
+		if s.sh.depth >= 2 {
+			o["doc_generated_multilevel"]++
+		}
+	} else {
+		var err error
+		if ctx, err = open(corpusFile()); err != nil {
+			return &result{Key: "harness/corpus-read", What: err.Error(), OpIndex: -1}
+		}
+		if err := ctx.LocateNameTree(c.Doc, true); err != nil {
+			return &result{Key: "doc/locate-error" + tag, What: err.Error(), OpIndex: -1}
+		}
+		vc, xrt, err := codecFor(ctx, c.Doc)
+		if err != nil {
+			return &result{Key: "harness/codec", What: err.Error(), OpIndex: -1}
+		}
+		s = &treeState{root: ctx.Names[c.Doc], ref: map[string]int{}, vc: vc, xrt: xrt, start: c.Start, o: o}
+		if r := s.runOps(buildOps(c.Build), c.Universe, true, 0, ""); r != nil {
+			docOpKey(r, c.Doc)
+			return r
+		}
 	}
 	if r := s.runOps(c.Ops, c.Universe, false, len(c.Build), ""); r != nil {
 		docOpKey(r, c.Doc)
 		return r
 	}
-	path := filepath.Join(scratch, fmt.Sprintf("c39-%d.pdf", idx))
-	defer os.Remove(path)
 	ref := s.ref
 	for round := 1; round <= 2; round++ {
 		if len(ref) == 0 {
@@ -468,7 +298,7 @@ func runDocOnce(c *seqCase, o obs, scratch string, idx int) *result {
 		if f := rawCheck(path, c.Doc, ref); f != nil {
 			class := f.Class
 			switch class {
-			case "raw-keys-differ-from-map", "raw-limits-mismatch", "raw-keys-not-sorted", "raw-value-mismatch", "raw-tree-missing", "raw-read-error":
+			case "raw-node-has-kids-and-names", "raw-keys-differ-from-map", "raw-limits-mismatch", "raw-keys-not-sorted", "raw-value-mismatch", "raw-tree-missing", "raw-read-error":
 			default:
 				// unreadable values, empty kids, missing limits, ...: one class "the written tree is structurally broken"
 				class = "raw-structure-broken"
